@@ -1,3 +1,1550 @@
+//! C16 — tuple-key encodings sort byte-wise exactly as their tuples, and decode back.
+//!
+//! Two formats are checked: the field-numbered format of crate `tuple_key` (elements
+//! unit/u32/u64/i32/i64/String, each ascending or descending) and the compact format of crate
+//! `tuple_key2` (unit/u32/u64/i32/i64/string/bytes, ascending only — the crate has no notion of a
+//! direction).
+//!
+//! Oracles (all computed here from the source tuples, never from the crates):
+//!   order      cmp(enc(a), enc(b)) == cmp_tuple(a, b), element by element, reversed for
+//!              descending elements;
+//!   extension  enc(t) < enc(t ++ u) and, for t' > t, enc(t ++ u) < enc(t') (and < enc(t' ++ u'));
+//!   roundtrip  parsing with the same type sequence returns the tuple;
+//!   decode     arbitrary / damaged bytes give `Err` or a value, never a panic.
+//!
+//! Known finding R-N (tuple_key, descending strings): `reverse_encoding` inverts the seven data
+//! bits of every byte but keeps the continuation bit, so when two strings' forward encodings
+//! first differ in a byte that differs *only in the continuation bit* (the shorter string is a
+//! prefix of the longer one and the longer one continues with zero bits up to the 7-bit chunk
+//! boundary) the descending encodings sort the wrong way round.  `rn_trigger` recomputes that
+//! condition with an independent 7-bit chunker; such pairs are excluded (and counted) unless the
+//! context is strict (replay).
+
+use std::cmp::Ordering;
+
+use proptest::collection::vec;
+use proptest::prelude::*;
+use prototk::FieldNumber;
+use serde::{Deserialize, Serialize};
+
+use tuple_key_derive::TypedTupleKey;
+use vcore::gens::sel;
+use vcore::{Check, Ctx, Outcome, Part, Property, Tier, ViolationRec, WorkerReport};
+
+////////////////////////////////////////////// model ///////////////////////////////////////////////
+
+#[derive(Clone, Copy, Debug, PartialEq, Eq)]
+enum Fmt {
+    Tk1,
+    Tk2,
+}
+
+impl Fmt {
+    fn krate(self) -> &'static str {
+        match self {
+            Fmt::Tk1 => "tuple_key",
+            Fmt::Tk2 => "tuple_key2",
+        }
+    }
+    fn short(self) -> &'static str {
+        match self {
+            Fmt::Tk1 => "tk1",
+            Fmt::Tk2 => "tk2",
+        }
+    }
+}
+
+#[derive(Clone, Copy, Debug, PartialEq, Eq, Serialize, Deserialize)]
+enum Ty {
+    Unit,
+    U32,
+    U64,
+    I32,
+    I64,
+    Str,
+    Bytes,
+}
+
+impl Ty {
+    fn name(self) -> &'static str {
+        match self {
+            Ty::Unit => "unit",
+            Ty::U32 => "u32",
+            Ty::U64 => "u64",
+            Ty::I32 => "i32",
+            Ty::I64 => "i64",
+            Ty::Str => "string",
+            Ty::Bytes => "bytes",
+        }
+    }
+}
+
+#[derive(Clone, Debug, PartialEq, Eq, Serialize, Deserialize)]
+enum Val {
+    Unit,
+    U32(u32),
+    U64(u64),
+    I32(i32),
+    I64(i64),
+    Str(String),
+    Bytes(Vec<u8>),
+}
+
+impl Val {
+    fn ty(&self) -> Ty {
+        match self {
+            Val::Unit => Ty::Unit,
+            Val::U32(_) => Ty::U32,
+            Val::U64(_) => Ty::U64,
+            Val::I32(_) => Ty::I32,
+            Val::I64(_) => Ty::I64,
+            Val::Str(_) => Ty::Str,
+            Val::Bytes(_) => Ty::Bytes,
+        }
+    }
+    fn int(&self) -> Option<i128> {
+        match self {
+            Val::U32(x) => Some(*x as i128),
+            Val::U64(x) => Some(*x as i128),
+            Val::I32(x) => Some(*x as i128),
+            Val::I64(x) => Some(*x as i128),
+            _ => None,
+        }
+    }
+    fn seq(&self) -> Option<&[u8]> {
+        match self {
+            Val::Str(s) => Some(s.as_bytes()),
+            Val::Bytes(b) => Some(b),
+            _ => None,
+        }
+    }
+}
+
+/// One column of a schema: element type, direction and (tuple_key only) field number.
+#[derive(Clone, Copy, Debug, PartialEq, Eq, Serialize, Deserialize)]
+struct Col {
+    ty: Ty,
+    desc: bool,
+    field: u32,
+}
+
+fn dir_name(desc: bool) -> &'static str {
+    if desc { "desc" } else { "asc" }
+}
+
+/// Natural order of two values of the same type.
+fn cmp_val(a: &Val, b: &Val) -> Ordering {
+    match (a, b) {
+        (Val::Unit, Val::Unit) => Ordering::Equal,
+        (Val::U32(x), Val::U32(y)) => x.cmp(y),
+        (Val::U64(x), Val::U64(y)) => x.cmp(y),
+        (Val::I32(x), Val::I32(y)) => x.cmp(y),
+        (Val::I64(x), Val::I64(y)) => x.cmp(y),
+        (Val::Str(x), Val::Str(y)) => x.as_bytes().cmp(y.as_bytes()),
+        (Val::Bytes(x), Val::Bytes(y)) => x.cmp(y),
+        _ => unreachable!("conformance is checked before comparing"),
+    }
+}
+
+/// Element-by-element comparison with direction reversal; also the index of the first difference.
+fn cmp_tuple(schema: &[Col], a: &[Val], b: &[Val]) -> (Ordering, Option<usize>) {
+    for (i, (x, y)) in a.iter().zip(b.iter()).enumerate() {
+        let c = cmp_val(x, y);
+        if c != Ordering::Equal {
+            return (if schema[i].desc { c.reverse() } else { c }, Some(i));
+        }
+    }
+    (a.len().cmp(&b.len()), None)
+}
+
+fn conforms(fmt: Fmt, schema: &[Col], t: &[Val]) -> bool {
+    if t.len() > schema.len() {
+        return false;
+    }
+    for c in schema {
+        match fmt {
+            Fmt::Tk1 => {
+                if c.ty == Ty::Bytes || FieldNumber::new(c.field).is_err() {
+                    return false;
+                }
+            }
+            Fmt::Tk2 => {
+                if c.desc {
+                    return false;
+                }
+            }
+        }
+    }
+    schema.iter().zip(t.iter()).all(|(c, v)| c.ty == v.ty())
+}
+
+fn hex(b: &[u8]) -> String {
+    let s: String = b.iter().take(96).map(|x| format!("{x:02x}")).collect();
+    if b.len() > 96 { format!("{s}…({}B)", b.len()) } else { s }
+}
+
+fn show(t: &[Val]) -> String {
+    vcore::truncate(&format!("{t:?}"), 400)
+}
+
+fn show_schema(fmt: Fmt, s: &[Col]) -> String {
+    let parts: Vec<String> = s
+        .iter()
+        .map(|c| match fmt {
+            Fmt::Tk1 => format!("#{}:{}:{}", c.field, c.ty.name(), dir_name(c.desc)),
+            Fmt::Tk2 => c.ty.name().to_string(),
+        })
+        .collect();
+    format!("[{}]", parts.join(", "))
+}
+
+///////////////////////////////////////////// encoders /////////////////////////////////////////////
+
+fn tk1_dir(desc: bool) -> tuple_key::Direction {
+    if desc { tuple_key::Direction::Reverse } else { tuple_key::Direction::Forward }
+}
+
+fn tk1_kdt(ty: Ty) -> tuple_key::KeyDataType {
+    match ty {
+        Ty::Unit => tuple_key::KeyDataType::unit,
+        Ty::U32 => tuple_key::KeyDataType::fixed32,
+        Ty::U64 => tuple_key::KeyDataType::fixed64,
+        Ty::I32 => tuple_key::KeyDataType::sfixed32,
+        Ty::I64 => tuple_key::KeyDataType::sfixed64,
+        Ty::Str | Ty::Bytes => tuple_key::KeyDataType::string,
+    }
+}
+
+fn tk1_encode(schema: &[Col], t: &[Val]) -> tuple_key::TupleKey {
+    let mut k = tuple_key::TupleKey::default();
+    for (c, v) in schema.iter().zip(t.iter()) {
+        let f = FieldNumber::must(c.field);
+        let d = tk1_dir(c.desc);
+        match v {
+            // `extend` is the documented way to append a (forward) unit element.
+            Val::Unit if !c.desc => k.extend(f),
+            Val::Unit => k.extend_with_key(f, (), d),
+            Val::U32(x) => k.extend_with_key(f, *x, d),
+            Val::U64(x) => k.extend_with_key(f, *x, d),
+            Val::I32(x) => k.extend_with_key(f, *x, d),
+            Val::I64(x) => k.extend_with_key(f, *x, d),
+            Val::Str(x) => k.extend_with_key(f, x.clone(), d),
+            Val::Bytes(_) => unreachable!("tuple_key has no bytes element"),
+        }
+    }
+    k
+}
+
+/// Parse `key` with the type sequence of `schema`.  Returns the values parsed so far and the
+/// first error.  With `check_peek`, `peek_next` must announce exactly the schema's column.
+fn tk1_decode(schema: &[Col], key: &tuple_key::TupleKey, check_peek: bool) -> (Vec<Val>, Result<(), String>) {
+    let mut p = tuple_key::TupleKeyParser::new(key);
+    let mut out = vec![];
+    for c in schema {
+        let f = FieldNumber::must(c.field);
+        let d = tk1_dir(c.desc);
+        let peek = p.peek_next();
+        if check_peek {
+            match peek {
+                Ok(Some((pf, pk, pd))) => {
+                    if pf != f || pk != tk1_kdt(c.ty) || pd != d {
+                        return (out, Err(format!("peek_next announced ({pf}, {pk:?}, {pd:?}) for column #{}:{}:{}", c.field, c.ty.name(), dir_name(c.desc))));
+                    }
+                }
+                Ok(None) => return (out, Err("peek_next: no more elements".into())),
+                Err(e) => return (out, Err(format!("peek_next: {e}"))),
+            }
+        }
+        let r: Result<Val, &'static str> = match c.ty {
+            Ty::Unit => p.parse_next(f, d).map(|_| Val::Unit),
+            Ty::U32 => p.parse_next_with_key::<u32>(f, d).map(Val::U32),
+            Ty::U64 => p.parse_next_with_key::<u64>(f, d).map(Val::U64),
+            Ty::I32 => p.parse_next_with_key::<i32>(f, d).map(Val::I32),
+            Ty::I64 => p.parse_next_with_key::<i64>(f, d).map(Val::I64),
+            Ty::Str | Ty::Bytes => p.parse_next_with_key::<String>(f, d).map(Val::Str),
+        };
+        match r {
+            Ok(v) => out.push(v),
+            Err(e) => return (out, Err(e.to_string())),
+        }
+    }
+    match p.peek_next() {
+        Ok(None) => (out, Ok(())),
+        Ok(Some(_)) => (out, Err("trailing elements".into())),
+        Err(e) => (out, Err(format!("trailing: {e}"))),
+    }
+}
+
+fn tk2_encode(t: &[Val]) -> Vec<u8> {
+    let mut b = tuple_key2::TupleKey::builder();
+    for v in t {
+        b = match v {
+            Val::Unit => b.unit(),
+            Val::U32(x) => b.u32(*x),
+            Val::U64(x) => b.u64(*x),
+            Val::I32(x) => b.i32(*x),
+            Val::I64(x) => b.i64(*x),
+            Val::Str(x) => b.string(x),
+            Val::Bytes(x) => b.bytes(x),
+        };
+    }
+    b.build().into_bytes()
+}
+
+/// Parse `bytes` with the type sequence of `schema`: values parsed, result (including `finish`),
+/// and the number of bytes consumed by the successfully parsed elements.
+fn tk2_decode(schema: &[Col], bytes: &[u8]) -> (Vec<Val>, Result<(), tuple_key2::Error>, usize) {
+    let key = tuple_key2::TupleKey::from_bytes(bytes.to_vec());
+    let mut p = key.parser();
+    let mut out = vec![];
+    let mut consumed = 0;
+    for c in schema {
+        let r = match c.ty {
+            Ty::Unit => p.unit().map(|_| Val::Unit),
+            Ty::U32 => p.u32().map(Val::U32),
+            Ty::U64 => p.u64().map(Val::U64),
+            Ty::I32 => p.i32().map(Val::I32),
+            Ty::I64 => p.i64().map(Val::I64),
+            Ty::Str => p.string().map(Val::Str),
+            Ty::Bytes => p.bytes().map(Val::Bytes),
+        };
+        match r {
+            Ok(v) => {
+                out.push(v);
+                consumed = p.offset();
+            }
+            Err(e) => return (out, Err(e), consumed),
+        }
+    }
+    let _ = p.remaining();
+    let _ = p.is_empty();
+    let r = p.finish();
+    (out, r, consumed)
+}
+
+fn encode(fmt: Fmt, schema: &[Col], t: &[Val]) -> Vec<u8> {
+    match fmt {
+        Fmt::Tk1 => tk1_encode(schema, t).as_bytes().to_vec(),
+        Fmt::Tk2 => tk2_encode(t),
+    }
+}
+
+////////////////////////////////////// R-N trigger predicate ///////////////////////////////////////
+
+/// Independent re-implementation of the 7-bit chunking of `tuple_key` strings: the bits of the
+/// string, most significant first, cut into groups of seven (the last group zero padded); every
+/// group but the last carries a set low (continuation) bit.  The empty string is one zero byte.
+fn chunks7(bytes: &[u8]) -> Vec<u8> {
+    if bytes.is_empty() {
+        return vec![0];
+    }
+    let mut bits: Vec<u8> = Vec::with_capacity(bytes.len() * 8 + 7);
+    for b in bytes {
+        for i in (0..8).rev() {
+            bits.push((b >> i) & 1);
+        }
+    }
+    while bits.len() % 7 != 0 {
+        bits.push(0);
+    }
+    let n = bits.len() / 7;
+    (0..n)
+        .map(|g| {
+            let mut x = 0u8;
+            for i in 0..7 {
+                x = (x << 1) | bits[7 * g + i];
+            }
+            (x << 1) | u8::from(g + 1 < n)
+        })
+        .collect()
+}
+
+/// R-N trigger: the first differing byte of the two *forward* encodings differs only in the low
+/// (continuation) bit.
+fn rn_trigger(a: &[u8], b: &[u8]) -> bool {
+    let (x, y) = (chunks7(a), chunks7(b));
+    for (p, q) in x.iter().zip(y.iter()) {
+        if p != q {
+            return p ^ q == 1;
+        }
+    }
+    false
+}
+
+/// The same condition stated on the strings: one is a proper prefix of the other and the longer
+/// one continues with zero bits up to the end of the shorter one's last 7-bit group (all seven
+/// bits for the empty string; no bits at all when the shorter length is a multiple of 7).
+fn rn_trigger_alt(a: &[u8], b: &[u8]) -> bool {
+    let (s, l) = match a.len().cmp(&b.len()) {
+        Ordering::Less => (a, b),
+        Ordering::Greater => (b, a),
+        Ordering::Equal => return false,
+    };
+    if !l.starts_with(s) {
+        return false;
+    }
+    let pad = if s.is_empty() { 7 } else { (7 - (8 * s.len()) % 7) % 7 };
+    (0..pad).all(|i| {
+        let pos = 8 * s.len() + i;
+        (l[pos / 8] >> (7 - pos % 8)) & 1 == 0
+    })
+}
+
+//////////////////////////////////////////// generators ////////////////////////////////////////////
+
+fn int_range(ty: Ty) -> (i128, i128) {
+    match ty {
+        Ty::U32 => (0, u32::MAX as i128),
+        Ty::U64 => (0, u64::MAX as i128),
+        Ty::I32 => (i32::MIN as i128, i32::MAX as i128),
+        Ty::I64 => (i64::MIN as i128, i64::MAX as i128),
+        _ => (0, 0),
+    }
+}
+
+fn int_val(ty: Ty, x: i128) -> Val {
+    match ty {
+        Ty::U32 => Val::U32(x as u32),
+        Ty::U64 => Val::U64(x as u64),
+        Ty::I32 => Val::I32(x as i32),
+        Ty::I64 => Val::I64(x as i64),
+        _ => Val::Unit,
+    }
+}
+
+/// 0, ±1, ±2, ±2^(7k)+{-1,0,1}, ±2^(8k)+{-1,0,1}, MIN, MIN+1, MAX-1, MAX — restricted to the type.
+fn boundaries(ty: Ty) -> Vec<i128> {
+    let (lo, hi) = int_range(ty);
+    let mut v: Vec<i128> = vec![0, 1, 2, -1, -2, lo, lo + 1, hi - 1, hi];
+    let mut exps: Vec<u32> = (1..=9).map(|k| 7 * k).collect();
+    exps.extend((1..=8).map(|k| 8 * k));
+    exps.extend([15, 31, 63]);
+    for e in exps {
+        let p = 1i128 << e;
+        for d in -1..=1 {
+            v.push(p + d);
+            v.push(-p + d);
+        }
+    }
+    v.retain(|x| *x >= lo && *x <= hi);
+    v.sort();
+    v.dedup();
+    v
+}
+
+fn int_strategy(ty: Ty) -> BoxedStrategy<i128> {
+    let (lo, hi) = int_range(ty);
+    let b = boundaries(ty);
+    prop_oneof![
+        5 => any::<u16>().prop_map(move |i| b[sel(i, b.len())]),
+        2 => lo..=hi,
+        2 => (any::<u64>(), 0u32..64, any::<bool>()).prop_map(move |(x, sh, neg)| {
+            let m = (x >> sh) as i128;
+            (if neg { -m - 1 } else { m }).clamp(lo, hi)
+        }),
+        1 => (-300i128..=300).prop_map(move |v| v.clamp(lo, hi)),
+    ]
+    .boxed()
+}
+
+/// A pair of integers of one type, correlated by construction.
+fn int_pair(ty: Ty) -> BoxedStrategy<(Val, Val)> {
+    let (lo, hi) = int_range(ty);
+    let width = if matches!(ty, Ty::U32 | Ty::I32) { 32 } else { 64 };
+    (int_strategy(ty), int_strategy(ty), 0u8..12, 0u32..64)
+        .prop_map(move |(x, z, rel, bit)| {
+            let y = match rel {
+                0 => x,
+                1 | 2 => x + 1,
+                3 | 4 => x - 1,
+                5 => x + 2,
+                6 => -x,
+                7 => -x - 1,
+                8 => lo + (((x - lo) as u128) ^ (1u128 << (bit % width))) as i128,
+                _ => z,
+            };
+            (int_val(ty, x), int_val(ty, y.clamp(lo, hi)))
+        })
+        .boxed()
+}
+
+fn char_unit() -> BoxedStrategy<char> {
+    prop_oneof![
+        3 => Just('\0'),
+        2 => Just('\u{1}'),
+        1 => Just('\u{2}'),
+        3 => prop::char::range('a', 'c'),
+        1 => Just('\u{7f}'),
+        1 => Just('\u{80}'),
+        1 => Just('\u{ff}'),
+        1 => Just('\u{7ff}'),
+        1 => Just('\u{800}'),
+        1 => Just('\u{ffff}'),
+        1 => Just('\u{10000}'),
+        1 => Just('\u{10ffff}'),
+        2 => any::<char>(),
+        2 => prop::char::range(' ', '~'),
+    ]
+    .boxed()
+}
+
+fn byte_unit() -> BoxedStrategy<u8> {
+    prop_oneof![
+        4 => Just(0u8),
+        2 => Just(1u8),
+        4 => Just(0xffu8),
+        1 => Just(0xfeu8),
+        1 => Just(0x7fu8),
+        1 => Just(0x80u8),
+        2 => b'a'..=b'c',
+        3 => any::<u8>(),
+    ]
+    .boxed()
+}
+
+/// A pair of sequences correlated by construction: equal, one a prefix of the other, differing in
+/// the last unit only, differing after a common prefix, or independent.
+fn seq_pair<T: Clone + std::fmt::Debug + 'static>(unit: BoxedStrategy<T>) -> BoxedStrategy<(Vec<T>, Vec<T>)> {
+    let base = prop_oneof![
+        10 => vec(unit.clone(), 0..=16),
+        1 => vec(unit.clone(), 17..=70),
+    ];
+    (
+        base,
+        vec(unit.clone(), 0..=3),
+        vec(unit.clone(), 0..=3),
+        unit.clone(),
+        unit.clone(),
+        0u8..12,
+        vec(unit.clone(), 0..=12),
+        any::<bool>(),
+    )
+        .prop_map(|(base, ra, rb, c1, c2, rel, indep, swap)| {
+            let cat = |parts: &[&[T]]| -> Vec<T> { parts.iter().flat_map(|p| p.iter().cloned()).collect() };
+            let one = |c: &T| vec![c.clone()];
+            let (a, b) = match rel {
+                0 => (base.clone(), base.clone()),
+                1 | 2 => (base.clone(), cat(&[&base, &one(&c1), &ra])),
+                3 => (base.clone(), cat(&[&base, &ra])),
+                4 | 5 => (cat(&[&base, &one(&c1)]), cat(&[&base, &one(&c2)])),
+                6 => (cat(&[&base, &one(&c1), &ra]), cat(&[&base, &one(&c2), &rb])),
+                7 => (cat(&[&base, &ra]), cat(&[&base, &rb])),
+                8 => (cat(&[&base, &one(&c1)]), cat(&[&base, &one(&c1), &one(&c2)])),
+                9 => (Vec::new(), cat(&[&one(&c1), &ra])),
+                _ => (base, indep),
+            };
+            if swap { (b, a) } else { (a, b) }
+        })
+        .boxed()
+}
+
+fn val_pair(ty: Ty) -> BoxedStrategy<(Val, Val)> {
+    match ty {
+        Ty::Unit => Just((Val::Unit, Val::Unit)).boxed(),
+        Ty::U32 | Ty::U64 | Ty::I32 | Ty::I64 => int_pair(ty),
+        Ty::Str => seq_pair(char_unit())
+            .prop_map(|(a, b)| (Val::Str(a.into_iter().collect()), Val::Str(b.into_iter().collect())))
+            .boxed(),
+        Ty::Bytes => seq_pair(byte_unit()).prop_map(|(a, b)| (Val::Bytes(a), Val::Bytes(b))).boxed(),
+    }
+}
+
+fn field_strategy() -> BoxedStrategy<u32> {
+    const EDGES: [u32; 14] = [7, 8, 15, 16, 1023, 1024, 18999, 20000, (1 << 17) - 1, 1 << 17, (1 << 24) - 1, 1 << 24, (1 << 29) - 2, (1 << 29) - 1];
+    prop_oneof![
+        5 => 1u32..8,
+        3 => any::<u16>().prop_map(|i| EDGES[sel(i, EDGES.len())]),
+        1 => 1u32..19000,
+        1 => 20000u32..(1 << 29),
+    ]
+    .boxed()
+}
+
+fn ty_strategy(fmt: Fmt) -> BoxedStrategy<Ty> {
+    match fmt {
+        Fmt::Tk1 => prop_oneof![
+            1 => Just(Ty::Unit),
+            2 => Just(Ty::U32),
+            2 => Just(Ty::U64),
+            2 => Just(Ty::I32),
+            2 => Just(Ty::I64),
+            5 => Just(Ty::Str),
+        ]
+        .boxed(),
+        Fmt::Tk2 => prop_oneof![
+            1 => Just(Ty::Unit),
+            2 => Just(Ty::U32),
+            2 => Just(Ty::U64),
+            2 => Just(Ty::I32),
+            2 => Just(Ty::I64),
+            3 => Just(Ty::Str),
+            4 => Just(Ty::Bytes),
+        ]
+        .boxed(),
+    }
+}
+
+fn col_strategy(fmt: Fmt) -> BoxedStrategy<Col> {
+    match fmt {
+        Fmt::Tk1 => (ty_strategy(fmt), any::<bool>(), field_strategy()).prop_map(|(ty, desc, field)| Col { ty, desc, field }).boxed(),
+        Fmt::Tk2 => ty_strategy(fmt).prop_map(|ty| Col { ty, desc: false, field: 0 }).boxed(),
+    }
+}
+
+fn schema_strategy(fmt: Fmt, min: usize, max: usize) -> BoxedStrategy<Vec<Col>> {
+    vec(col_strategy(fmt), min..=max).boxed()
+}
+
+/// Schema followed by one correlated pair per column.
+fn schema_and_pairs(schema: BoxedStrategy<Vec<Col>>) -> BoxedStrategy<(Vec<Col>, Vec<(Val, Val)>)> {
+    schema
+        .prop_flat_map(|schema| {
+            let pairs: Vec<BoxedStrategy<(Val, Val)>> = schema.iter().map(|c| val_pair(c.ty)).collect();
+            (Just(schema), pairs)
+        })
+        .boxed()
+}
+
+/// `a` takes the first component everywhere; `b` shares `a`'s first `p` elements and takes the
+/// second (correlated) component afterwards.
+fn split_pairs(pairs: &[(Val, Val)], p: usize) -> (Vec<Val>, Vec<Val>) {
+    let a: Vec<Val> = pairs.iter().map(|x| x.0.clone()).collect();
+    let b: Vec<Val> = pairs.iter().enumerate().map(|(i, x)| if i < p { x.0.clone() } else { x.1.clone() }).collect();
+    (a, b)
+}
+
+///////////////////////////////////////////// labelling ////////////////////////////////////////////
+
+fn bitlen(x: i128) -> u32 {
+    // number of significant bits of the magnitude as the compact encoding sees it
+    let m = if x < 0 { !x } else { x } as u128;
+    128 - m.leading_zeros()
+}
+
+/// Labels describing the first differing element pair.
+fn label_diff(o: &mut Outcome, c: &Col, x: &Val, y: &Val) {
+    o.label(format!("diff:{}:{}", c.ty.name(), dir_name(c.desc)));
+    if let (Some(p), Some(q)) = (x.int(), y.int()) {
+        let (lo, hi) = int_range(c.ty);
+        if (p - q).abs() == 1 {
+            o.label("int:adjacent");
+        }
+        if (p < 0) != (q < 0) {
+            o.label("int:sign-straddle");
+        }
+        if bitlen(p).div_ceil(8) != bitlen(q).div_ceil(8) {
+            o.label("int:byte-length-straddle");
+        }
+        if bitlen(p).div_ceil(7) != bitlen(q).div_ceil(7) {
+            o.label("int:7bit-length-straddle");
+        }
+        if [p, q].iter().any(|v| *v == lo || *v == hi) {
+            o.label("int:min-or-max");
+        }
+    }
+    if let (Some(p), Some(q)) = (x.seq(), y.seq()) {
+        let common = p.iter().zip(q.iter()).take_while(|(a, b)| a == b).count();
+        if p.is_empty() || q.is_empty() {
+            o.label("seq:empty-vs-nonempty");
+        }
+        if common == p.len().min(q.len()) {
+            o.label("seq:prefix-pair");
+            if common % 7 == 0 || common % 7 == 6 {
+                o.label("seq:prefix-pair-len-7k-or-7k-1");
+            }
+        } else if common > 0 {
+            o.label("seq:common-prefix-then-differ");
+        }
+        if p.len() == q.len() && common + 1 == p.len() {
+            o.label("seq:differ-in-last-byte-only");
+        }
+        if p.contains(&0) || q.contains(&0) {
+            o.label("seq:has-nul");
+        }
+        if p.contains(&0xff) || q.contains(&0xff) {
+            o.label("seq:has-0xff");
+        }
+    }
+}
+
+/// The non-trivial rule for comparisons.
+fn interesting_diff(d: usize, x: &Val, y: &Val) -> bool {
+    if d >= 1 {
+        return true;
+    }
+    if let (Some(p), Some(q)) = (x.int(), y.int()) {
+        return (p - q).abs() <= 2 || (p < 0) != (q < 0) || bitlen(p).div_ceil(7) != bitlen(q).div_ceil(7) || bitlen(p).div_ceil(8) != bitlen(q).div_ceil(8);
+    }
+    if let (Some(p), Some(q)) = (x.seq(), y.seq()) {
+        let common = p.iter().zip(q.iter()).take_while(|(a, b)| a == b).count();
+        return common > 0 || p.is_empty() || q.is_empty();
+    }
+    false
+}
+
+/////////////////////////////////////////// order checking /////////////////////////////////////////
+
+/// Judge `cmp(ea, eb)` against the order of the equal-length tuples `a`, `b` (whose encodings, or
+/// the encodings of extensions of them, `ea`/`eb` are).  `a != b` element-wise is not required.
+/// Returns `false` when the case must not be examined further (failed or excluded).
+#[allow(clippy::too_many_arguments)]
+fn judge_order(fmt: Fmt, ctx: &Ctx, kind: &str, what: &str, schema: &[Col], a: &[Val], b: &[Val], ea: &[u8], eb: &[u8], o: &mut Outcome) -> bool {
+    let (want, d) = cmp_tuple(schema, a, b);
+    let got = ea.cmp(eb);
+    if let Some(d) = d {
+        let c = &schema[d];
+        if fmt == Fmt::Tk1 && c.ty == Ty::Str && c.desc {
+            let (x, y) = (a[d].seq().unwrap(), b[d].seq().unwrap());
+            let trig = rn_trigger(x, y);
+            if trig != rn_trigger_alt(x, y) {
+                o.fail("harness:rn-predicate-mismatch", format!("the two statements of the R-N trigger disagree on {:?} / {:?}", a[d], b[d]));
+                return false;
+            }
+            if trig {
+                if !ctx.strict {
+                    if !o.excluded.iter().any(|e| e == "R-N") {
+                        o.excluded.push("R-N".into());
+                    }
+                    o.label(if got != want { "R-N:excluded-pair-sorts-wrong" } else { "R-N:excluded-pair-sorts-right" });
+                    return false;
+                }
+                if got != want {
+                    o.fail(
+                        format!("{kind}:tuple_key:desc-string"),
+                        format!(
+                            "{what}: descending strings {:?} vs {:?} (column {d} of {}): tuples compare {want:?} but encodings compare {got:?}; a={} b={} enc(a)={} enc(b)={}",
+                            a[d], b[d], show_schema(fmt, schema), show(a), show(b), hex(ea), hex(eb)
+                        ),
+                    );
+                    return false;
+                }
+                return true;
+            }
+            o.label("desc-string-outside-R-N-trigger:asserted");
+        }
+    }
+    if got != want {
+        let sig = match d {
+            Some(d) => format!("{kind}:{}:{}:{}", fmt.krate(), schema[d].ty.name(), dir_name(schema[d].desc)),
+            None => format!("{kind}:{}:equal-tuples", fmt.krate()),
+        };
+        o.fail(
+            sig,
+            format!(
+                "{what}: schema {} a={} b={}: tuples compare {want:?} (first difference at element {d:?}) but encodings compare {got:?}; enc(a)={} enc(b)={}",
+                show_schema(fmt, schema), show(a), show(b), hex(ea), hex(eb)
+            ),
+        );
+        return false;
+    }
+    true
+}
+
+///////////////////////////////////////////// order part ///////////////////////////////////////////
+
+#[derive(Clone, Debug, Serialize, Deserialize)]
+struct PairCase {
+    schema: Vec<Col>,
+    a: Vec<Val>,
+    b: Vec<Val>,
+}
+
+struct Order {
+    fmt: Fmt,
+    /// Concentrate on descending tuple_key strings (validation of the R-N trigger predicate).
+    desc_string_focus: bool,
+}
+
+impl Property for Order {
+    type Case = PairCase;
+    fn name(&self) -> String {
+        if self.desc_string_focus { "tk1-order-desc-string".into() } else { format!("{}-order", self.fmt.short()) }
+    }
+    fn cases(&self, tier: Tier) -> u64 {
+        if self.desc_string_focus { tier.pick(10_000, 250_000) } else { tier.pick(20_000, 500_000) }
+    }
+    fn strategy(&self, _: &Ctx) -> BoxedStrategy<PairCase> {
+        let fmt = self.fmt;
+        if self.desc_string_focus {
+            // [0..2 arbitrary columns] ++ [descending string] ++ [0..2 arbitrary columns]; the tuples
+            // share everything before the string column.
+            let schema = (schema_strategy(fmt, 0, 2), field_strategy(), schema_strategy(fmt, 0, 2)).prop_map(|(mut pre, field, post)| {
+                let at = pre.len();
+                pre.push(Col { ty: Ty::Str, desc: true, field });
+                pre.extend(post);
+                (pre, at)
+            });
+            return schema
+                .prop_flat_map(|(schema, at)| {
+                    let pairs: Vec<BoxedStrategy<(Val, Val)>> = schema.iter().map(|c| val_pair(c.ty)).collect();
+                    (Just(schema), pairs, Just(at))
+                })
+                .prop_map(|(schema, pairs, at)| {
+                    let (a, b) = split_pairs(&pairs, at);
+                    PairCase { schema, a, b }
+                })
+                .boxed();
+        }
+        (schema_and_pairs(schema_strategy(fmt, 1, 5)), any::<u16>())
+            .prop_map(|((schema, pairs), p)| {
+                // equal tuples only for the topmost selector values
+                let p = sel(p, 16 * schema.len() + 1) / 16;
+                let (a, b) = split_pairs(&pairs, p);
+                PairCase { schema, a, b }
+            })
+            .boxed()
+    }
+    fn run(&self, ctx: &Ctx, c: &PairCase) -> Outcome {
+        let mut o = Outcome::pass();
+        let fmt = self.fmt;
+        if !conforms(fmt, &c.schema, &c.a) || !conforms(fmt, &c.schema, &c.b) || c.a.len() != c.schema.len() || c.b.len() != c.schema.len() {
+            o.inconclusive = true;
+            o.label("malformed-case");
+            return o;
+        }
+        let (_, d) = cmp_tuple(&c.schema, &c.a, &c.b);
+        match d {
+            Some(d) => {
+                label_diff(&mut o, &c.schema[d], &c.a[d], &c.b[d]);
+                o.label(format!("shared-prefix-elements:{}", d.min(3)));
+                o.nontrivial = interesting_diff(d, &c.a[d], &c.b[d]);
+            }
+            None => o.label("equal-tuples"),
+        }
+        let ea = encode(fmt, &c.schema, &c.a);
+        let eb = encode(fmt, &c.schema, &c.b);
+        if !judge_order(fmt, ctx, "order", "enc(a) vs enc(b)", &c.schema, &c.a, &c.b, &ea, &eb, &mut o) {
+            return o;
+        }
+        // the comparison exposed by the key type itself agrees with the byte comparison
+        if fmt == Fmt::Tk1 {
+            let (ka, kb) = (tk1_encode(&c.schema, &c.a), tk1_encode(&c.schema, &c.b));
+            if ka.cmp(&kb) != ea.cmp(&eb) {
+                o.fail("order:tuple_key:key-ord-differs-from-bytes", format!("TupleKey::cmp disagrees with the byte comparison for a={} b={}", show(&c.a), show(&c.b)));
+            }
+        } else {
+            let (ka, kb) = (tuple_key2::TupleKey::from_bytes(ea.clone()), tuple_key2::TupleKey::from_bytes(eb.clone()));
+            if ka.cmp(&kb) != ea.cmp(&eb) {
+                o.fail("order:tuple_key2:key-ord-differs-from-bytes", format!("TupleKey::cmp disagrees with the byte comparison for a={} b={}", show(&c.a), show(&c.b)));
+            }
+        }
+        o
+    }
+}
+
+/////////////////////////////////////////// extension part /////////////////////////////////////////
+
+/// `t = a[..n]`, `u = a[n..]`, `t' = b[..n]`, `u' = b[n..]`.
+#[derive(Clone, Debug, Serialize, Deserialize)]
+struct ExtCase {
+    schema: Vec<Col>,
+    n: usize,
+    a: Vec<Val>,
+    b: Vec<Val>,
+}
+
+struct Extension {
+    fmt: Fmt,
+}
+
+impl Property for Extension {
+    type Case = ExtCase;
+    fn name(&self) -> String {
+        format!("{}-extension", self.fmt.short())
+    }
+    fn cases(&self, tier: Tier) -> u64 {
+        tier.pick(15_000, 375_000)
+    }
+    fn strategy(&self, _: &Ctx) -> BoxedStrategy<ExtCase> {
+        (schema_and_pairs(schema_strategy(self.fmt, 2, 6)), any::<u16>(), any::<u16>())
+            .prop_map(|((schema, pairs), n, p)| {
+                let len = schema.len();
+                // t has 1..len-1 elements (so that u is non-empty), rarely 0 or len
+                let n = match sel(n, 10 * (len - 1) + 2) {
+                    0 => 0,
+                    x if x == 10 * (len - 1) + 1 => len,
+                    x => 1 + (x - 1) / 10,
+                };
+                // t and t' share p < n leading elements (p == n: equal, rare)
+                let p = if n == 0 { 0 } else { sel(p, 16 * n + 1) / 16 };
+                let (a, b) = split_pairs(&pairs, p);
+                ExtCase { schema, n, a, b }
+            })
+            .boxed()
+    }
+    fn run(&self, ctx: &Ctx, c: &ExtCase) -> Outcome {
+        let mut o = Outcome::pass();
+        let fmt = self.fmt;
+        let len = c.schema.len();
+        if !conforms(fmt, &c.schema, &c.a) || !conforms(fmt, &c.schema, &c.b) || c.a.len() != len || c.b.len() != len || c.n > len {
+            o.inconclusive = true;
+            o.label("malformed-case");
+            return o;
+        }
+        let n = c.n;
+        let s = &c.schema;
+        // (1) a tuple sorts strictly before each of its proper extensions
+        for (full, who) in [(&c.a, "t"), (&c.b, "t'")] {
+            let et = encode(fmt, s, &full[..n]);
+            for m in n + 1..=len {
+                let em = encode(fmt, s, &full[..m]);
+                if !(et < em) || !em.starts_with(&et) {
+                    o.fail(
+                        format!("extension:{}:t-not-before-t++u", fmt.krate()),
+                        format!("schema {} {who}={} extended to {}: enc(t)={} is not a proper prefix of / does not sort before enc(t++u)={}", show_schema(fmt, s), show(&full[..n]), show(&full[..m]), hex(&et), hex(&em)),
+                    );
+                    return o;
+                }
+            }
+        }
+        if n < len {
+            o.label(format!("u-elements:{}", (len - n).min(3)));
+        }
+        // (2) every extension of the smaller tuple sorts before the larger tuple and its extensions
+        let (ord, d) = cmp_tuple(&s[..n], &c.a[..n], &c.b[..n]);
+        let (lo, hi) = match ord {
+            Ordering::Less => (&c.a, &c.b),
+            Ordering::Greater => (&c.b, &c.a),
+            Ordering::Equal => {
+                o.label("t-equals-t'");
+                if encode(fmt, s, &c.a[..n]) != encode(fmt, s, &c.b[..n]) {
+                    o.fail(format!("extension:{}:equal-tuples", fmt.krate()), format!("equal tuples {} encode differently", show(&c.a[..n])));
+                }
+                return o;
+            }
+        };
+        let d = d.unwrap();
+        label_diff(&mut o, &s[d], &lo[d], &hi[d]);
+        o.nontrivial = n < len && interesting_diff(d, &lo[d], &hi[d]);
+        let ehi = encode(fmt, s, &hi[..n]);
+        for m in n..=len {
+            let elo = encode(fmt, s, &lo[..m]);
+            let what = format!("t++u ({m} of {len} elements) vs t' ({n} elements)");
+            if !judge_order(fmt, ctx, "extension", &what, &s[..n], &lo[..n], &hi[..n], &elo, &ehi, &mut o) {
+                return o;
+            }
+        }
+        let (elo, ehi) = (encode(fmt, s, lo), encode(fmt, s, hi));
+        judge_order(fmt, ctx, "extension", "t++u vs t'++u'", &s[..n], &lo[..n], &hi[..n], &elo, &ehi, &mut o);
+        o
+    }
+}
+
+/////////////////////////////////////////// round-trip part ////////////////////////////////////////
+
+#[derive(Clone, Debug, Serialize, Deserialize)]
+struct RtCase {
+    schema: Vec<Col>,
+    t: Vec<Val>,
+}
+
+struct Roundtrip {
+    fmt: Fmt,
+}
+
+fn long_values(schema: &[Col]) -> Vec<BoxedStrategy<Val>> {
+    schema
+        .iter()
+        .map(|c| match c.ty {
+            // occasionally much longer strings than the pair generator makes
+            Ty::Str => prop_oneof![
+                6 => val_pair(Ty::Str).prop_map(|p| p.1),
+                1 => vec(char_unit(), 60..=300).prop_map(|v| Val::Str(v.into_iter().collect())),
+            ]
+            .boxed(),
+            Ty::Bytes => prop_oneof![
+                6 => val_pair(Ty::Bytes).prop_map(|p| p.1),
+                1 => vec(byte_unit(), 60..=400).prop_map(Val::Bytes),
+            ]
+            .boxed(),
+            ty => val_pair(ty).prop_map(|p| p.1).boxed(),
+        })
+        .collect()
+}
+
+/// A `tuple_key::Schema` that is a chain: level i has exactly one child, column i named `c<i>`.
+fn chain_schema(schema: &[Col], i: usize) -> tuple_key::Schema<usize> {
+    if i == schema.len() {
+        tuple_key::Schema::new(i, std::iter::empty())
+    } else {
+        let child = chain_schema(schema, i + 1);
+        tuple_key::Schema::new(i, std::iter::once(((FieldNumber::must(schema[i].field), format!("c{i}")), child)))
+    }
+}
+
+impl Property for Roundtrip {
+    type Case = RtCase;
+    fn name(&self) -> String {
+        format!("{}-roundtrip", self.fmt.short())
+    }
+    fn cases(&self, tier: Tier) -> u64 {
+        tier.pick(15_000, 375_000)
+    }
+    fn strategy(&self, _: &Ctx) -> BoxedStrategy<RtCase> {
+        schema_strategy(self.fmt, 0, 6)
+            .prop_flat_map(|schema| {
+                let vals = long_values(&schema);
+                (Just(schema), vals)
+            })
+            .prop_map(|(schema, t)| RtCase { schema, t })
+            .boxed()
+    }
+    fn run(&self, _: &Ctx, c: &RtCase) -> Outcome {
+        let mut o = Outcome::pass();
+        let fmt = self.fmt;
+        if !conforms(fmt, &c.schema, &c.t) || c.t.len() != c.schema.len() {
+            o.inconclusive = true;
+            o.label("malformed-case");
+            return o;
+        }
+        o.nontrivial = c.t.len() >= 2 && c.t.iter().any(|v| v.ty() != Ty::Unit);
+        for (col, v) in c.schema.iter().zip(c.t.iter()) {
+            o.label(format!("elem:{}:{}", col.ty.name(), dir_name(col.desc)));
+            if let Some(s) = v.seq() {
+                if s.is_empty() {
+                    o.label("seq:empty");
+                }
+                if s.contains(&0) {
+                    o.label("seq:has-nul");
+                }
+                if s.contains(&0xff) {
+                    o.label("seq:has-0xff");
+                }
+                if s.len() >= 60 {
+                    o.label("seq:long");
+                }
+            }
+            if let Some(x) = v.int() {
+                if boundaries(col.ty).binary_search(&x).is_ok() {
+                    o.label("int:boundary");
+                }
+            }
+        }
+        match fmt {
+            Fmt::Tk1 => {
+                let key = tk1_encode(&c.schema, &c.t);
+                let (got, res) = tk1_decode(&c.schema, &key, true);
+                if let Err(e) = &res {
+                    o.fail("roundtrip:tuple_key:parse-error", format!("schema {} t={}: parsing enc(t)={} failed after {} elements: {e}", show_schema(fmt, &c.schema), show(&c.t), hex(key.as_bytes()), got.len()));
+                    return o;
+                }
+                if got != c.t {
+                    o.fail("roundtrip:tuple_key:value-differs", format!("schema {} t={} decoded as {} from {}", show_schema(fmt, &c.schema), show(&c.t), show(&got), hex(key.as_bytes())));
+                    return o;
+                }
+                // the same bytes wrapped again parse the same
+                let again = tuple_key::TupleKey::from(key.as_bytes());
+                if again != key || tk1_decode(&c.schema, &again, true).0 != c.t {
+                    o.fail("roundtrip:tuple_key:from-bytes", "TupleKey::from(bytes) differs from the built key".to_string());
+                    return o;
+                }
+                // the element iterator yields tag and value per element and covers the key exactly
+                let items: Vec<&[u8]> = key.iter().collect();
+                if items.len() != 2 * c.t.len() || items.concat() != key.as_bytes() {
+                    o.fail("roundtrip:tuple_key:iterator", format!("TupleKeyIterator yields {} items for {} elements of {}", items.len(), c.t.len(), hex(key.as_bytes())));
+                    return o;
+                }
+                // the schema walker decodes the same values
+                let sch = chain_schema(&c.schema, 0);
+                let mut want_args: Vec<String> = vec![];
+                for (i, v) in c.t.iter().enumerate() {
+                    want_args.push(format!("--c{i}"));
+                    match v {
+                        Val::Unit => {}
+                        Val::Str(s) => want_args.push(s.clone()),
+                        v => want_args.push(v.int().unwrap().to_string()),
+                    }
+                }
+                match sch.args_for_key(&key) {
+                    Ok(args) if args == want_args => {}
+                    other => {
+                        o.fail("roundtrip:tuple_key:schema-args", format!("Schema::args_for_key gave {:?}, wanted {:?} for t={}", other.map_err(|e| format!("{e:?}")), want_args, show(&c.t)));
+                        return o;
+                    }
+                }
+                if sch.lookup(&key).ok() != Some(&c.t.len()) || !key.conforms_to(&sch) {
+                    o.fail("roundtrip:tuple_key:schema-lookup", format!("Schema::lookup does not reach the leaf for t={}", show(&c.t)));
+                }
+            }
+            Fmt::Tk2 => {
+                let bytes = tk2_encode(&c.t);
+                let (got, res, consumed) = tk2_decode(&c.schema, &bytes);
+                if let Err(e) = &res {
+                    o.fail("roundtrip:tuple_key2:parse-error", format!("schema {} t={}: parsing enc(t)={} failed after {} elements: {e}", show_schema(fmt, &c.schema), show(&c.t), hex(&bytes), got.len()));
+                    return o;
+                }
+                if got != c.t || consumed != bytes.len() {
+                    o.fail("roundtrip:tuple_key2:value-differs", format!("schema {} t={} decoded as {} from {}", show_schema(fmt, &c.schema), show(&c.t), show(&got), hex(&bytes)));
+                    return o;
+                }
+                // concatenation of the encodings of a split == the encoding of the whole
+                for cut in 0..=c.t.len() {
+                    let mut k = tuple_key2::TupleKey::from_bytes(tk2_encode(&c.t[..cut]));
+                    k.append(&tuple_key2::TupleKey::from_bytes(tk2_encode(&c.t[cut..])));
+                    if k.as_bytes() != &bytes[..] {
+                        o.fail("roundtrip:tuple_key2:append", format!("append of the halves split at {cut} differs from the whole for t={}", show(&c.t)));
+                        return o;
+                    }
+                }
+            }
+        }
+        o
+    }
+}
+
+//////////////////////////////////////// decode-arbitrary part /////////////////////////////////////
+
+#[derive(Clone, Debug, Serialize, Deserialize)]
+enum Mutn {
+    Flip { pos: u16, bit: u8 },
+    Set { pos: u16, byte: u8 },
+    Insert { pos: u16, byte: u8 },
+    Delete { pos: u16 },
+    Truncate { pos: u16 },
+    Append { bytes: Vec<u8> },
+}
+
+#[derive(Clone, Debug, Serialize, Deserialize)]
+struct DecCase {
+    schema: Vec<Col>,
+    /// a valid tuple of the schema (the bytes start as its encoding unless `raw` is used)
+    base: Vec<Val>,
+    raw: Option<Vec<u8>>,
+    muts: Vec<Mutn>,
+}
+
+struct Decode {
+    fmt: Fmt,
+}
+
+fn apply_muts(mut b: Vec<u8>, muts: &[Mutn]) -> Vec<u8> {
+    for m in muts {
+        match m {
+            Mutn::Flip { pos, bit } if !b.is_empty() => {
+                let i = sel(*pos, b.len());
+                b[i] ^= 1 << (bit % 8);
+            }
+            Mutn::Set { pos, byte } if !b.is_empty() => {
+                let i = sel(*pos, b.len());
+                b[i] = *byte;
+            }
+            Mutn::Insert { pos, byte } => {
+                let i = sel(*pos, b.len() + 1);
+                b.insert(i, *byte);
+            }
+            Mutn::Delete { pos } if !b.is_empty() => {
+                let i = sel(*pos, b.len());
+                b.remove(i);
+            }
+            Mutn::Truncate { pos } => {
+                let i = sel(*pos, b.len() + 1);
+                b.truncate(i);
+            }
+            Mutn::Append { bytes } => b.extend_from_slice(bytes),
+            _ => {}
+        }
+    }
+    b
+}
+
+fn special_byte() -> BoxedStrategy<u8> {
+    prop_oneof![
+        3 => Just(0u8),
+        2 => Just(0xffu8),
+        1 => Just(0xfeu8),
+        1 => Just(1u8),
+        4 => 0x10u8..=0x2c,
+        4 => any::<u8>(),
+    ]
+    .boxed()
+}
+
+fn mut_strategy() -> BoxedStrategy<Mutn> {
+    prop_oneof![
+        3 => (any::<u16>(), 0u8..8).prop_map(|(pos, bit)| Mutn::Flip { pos, bit }),
+        2 => (any::<u16>(), special_byte()).prop_map(|(pos, byte)| Mutn::Set { pos, byte }),
+        2 => (any::<u16>(), special_byte()).prop_map(|(pos, byte)| Mutn::Insert { pos, byte }),
+        2 => any::<u16>().prop_map(|pos| Mutn::Delete { pos }),
+        2 => any::<u16>().prop_map(|pos| Mutn::Truncate { pos }),
+        1 => vec(special_byte(), 1..4).prop_map(|bytes| Mutn::Append { bytes }),
+    ]
+    .boxed()
+}
+
+impl Property for Decode {
+    type Case = DecCase;
+    fn name(&self) -> String {
+        format!("{}-decode-arbitrary", self.fmt.short())
+    }
+    fn cases(&self, tier: Tier) -> u64 {
+        tier.pick(20_000, 500_000)
+    }
+    fn strategy(&self, _: &Ctx) -> BoxedStrategy<DecCase> {
+        schema_strategy(self.fmt, 0, 5)
+            .prop_flat_map(|schema| {
+                let vals = long_values(&schema);
+                (
+                    Just(schema),
+                    vals,
+                    prop::option::weighted(0.3, vec(special_byte(), 0..40)),
+                    prop_oneof![1 => Just(vec![]), 6 => vec(mut_strategy(), 1..=3)],
+                )
+            })
+            .prop_map(|(schema, base, raw, muts)| DecCase { schema, base, raw, muts })
+            .boxed()
+    }
+    fn run(&self, _: &Ctx, c: &DecCase) -> Outcome {
+        let mut o = Outcome::pass();
+        let fmt = self.fmt;
+        if !conforms(fmt, &c.schema, &c.base) || c.base.len() != c.schema.len() {
+            o.inconclusive = true;
+            o.label("malformed-case");
+            return o;
+        }
+        let start = match &c.raw {
+            Some(r) => r.clone(),
+            None => encode(fmt, &c.schema, &c.base),
+        };
+        let bytes = apply_muts(start.clone(), &c.muts);
+        let untouched = c.raw.is_none() && bytes == start;
+        o.label(if c.raw.is_some() { "input:arbitrary-bytes" } else if untouched { "input:valid-encoding" } else { "input:damaged-valid-encoding" });
+        match fmt {
+            Fmt::Tk1 => {
+                let key = tuple_key::TupleKey::from(&bytes[..]);
+                let (got, res) = tk1_decode(&c.schema, &key, false);
+                o.label(if res.is_ok() { "result:ok".to_string() } else { format!("result:err-after-{}-elements", got.len().min(3)) });
+                o.nontrivial = !bytes.is_empty() && (!got.is_empty() || c.raw.is_none());
+                if untouched && (res.is_err() || got != c.base) {
+                    o.fail("decode:tuple_key:valid-encoding-rejected", format!("valid encoding of {} parsed as {} / {res:?}", show(&c.base), show(&got)));
+                    return o;
+                }
+                // every other public decoder: must return, whatever it returns
+                let items: Vec<&[u8]> = key.iter().collect();
+                if items.concat() != bytes {
+                    o.fail("decode:tuple_key:iterator-loses-bytes", format!("TupleKeyIterator over {} does not cover the input", hex(&bytes)));
+                    return o;
+                }
+                let mut p = tuple_key::TupleKeyParser::new(&key);
+                let _ = p.peek_next();
+                let _ = p.parse_next(FieldNumber::must(1), tuple_key::Direction::Forward);
+                let _ = p.peek_next();
+                use tuple_key::Element;
+                let _ = <()>::parse_from(&bytes);
+                let _ = u32::parse_from(&bytes);
+                let _ = u64::parse_from(&bytes);
+                let _ = i32::parse_from(&bytes);
+                let _ = i64::parse_from(&bytes);
+                let _ = String::parse_from(&bytes);
+                if !c.schema.is_empty() {
+                    let sch = chain_schema(&c.schema, 0);
+                    let _ = sch.args_for_key(&key);
+                    let _ = sch.lookup(&key);
+                    let _ = sch.is_terminal(&key);
+                    let _ = key.conforms_to(&sch);
+                }
+                let _ = tuple_key::TupleKeyIterator::number_of_elements_in_common_prefix(key.iter(), tuple_key::TupleKeyIterator::from(&start[..]));
+            }
+            Fmt::Tk2 => {
+                let (got, res, consumed) = tk2_decode(&c.schema, &bytes);
+                o.label(match &res {
+                    Ok(()) => "result:ok".to_string(),
+                    Err(e) => format!("result:{}", format!("{e:?}").split([' ', '{', '(']).next().unwrap_or("err")),
+                });
+                o.nontrivial = !bytes.is_empty() && (!got.is_empty() || c.raw.is_none());
+                if untouched && (res.is_err() || got != c.base) {
+                    o.fail("decode:tuple_key2:valid-encoding-rejected", format!("valid encoding of {} parsed as {} / {res:?}", show(&c.base), show(&got)));
+                    return o;
+                }
+                // The documented format is canonical (shortest integers, one escape, one terminator):
+                // whatever the parser accepts re-encodes to exactly the bytes it consumed.  Together
+                // with order preservation this is what makes decoded values sort like their keys.
+                if consumed > bytes.len() || tk2_encode(&got) != bytes[..consumed] {
+                    o.fail(
+                        "decode:tuple_key2:accepted-bytes-not-canonical",
+                        format!("schema {}: parser accepted {} from the first {consumed} bytes of {}, which re-encode as {}", show_schema(fmt, &c.schema), show(&got), hex(&bytes), hex(&tk2_encode(&got))),
+                    );
+                    return o;
+                }
+                let _ = tuple_key2::boundary_candidates(&bytes);
+                let _ = tuple_key2::TupleKey::from_bytes(bytes.clone()).boundary_candidates();
+            }
+        }
+        o
+    }
+}
+
+//////////////////////////////////////////// derive part ///////////////////////////////////////////
+
+#[derive(Clone, Debug, Eq, PartialEq, TypedTupleKey)]
+struct D1 {
+    #[tuple_key(1)]
+    name: String,
+    #[tuple_key(2)]
+    #[reverse]
+    ts: i64,
+    #[tuple_key(3)]
+    n: u32,
+}
+
+#[derive(Clone, Debug, Eq, PartialEq, TypedTupleKey)]
+struct D2 {
+    #[tuple_key(8)]
+    #[reverse]
+    s: String,
+    #[tuple_key(1024)]
+    u: (),
+    #[tuple_key(7)]
+    #[reverse]
+    x: u64,
+    #[tuple_key(3)]
+    y: i32,
+}
+
+#[derive(Clone, Debug, Eq, PartialEq, TypedTupleKey)]
+struct D3 {
+    #[tuple_key(20000)]
+    #[reverse]
+    a: i32,
+    #[tuple_key(20000)]
+    #[reverse]
+    b: u32,
+    #[tuple_key(1)]
+    c: i64,
+    #[tuple_key(1)]
+    d: u64,
+    #[tuple_key(2)]
+    e: String,
+}
+
+/// A struct with a descending unit field.
+#[derive(Clone, Debug, Eq, PartialEq, TypedTupleKey)]
+struct D4 {
+    #[tuple_key(5)]
+    #[reverse]
+    u: (),
+    #[tuple_key(6)]
+    x: u32,
+}
+
+const fn col(ty: Ty, desc: bool, field: u32) -> Col {
+    Col { ty, desc, field }
+}
+
+const D_SCHEMAS: [&[Col]; 4] = [
+    &[col(Ty::Str, false, 1), col(Ty::I64, true, 2), col(Ty::U32, false, 3)],
+    &[col(Ty::Str, true, 8), col(Ty::Unit, false, 1024), col(Ty::U64, true, 7), col(Ty::I32, false, 3)],
+    &[col(Ty::I32, true, 20000), col(Ty::U32, true, 20000), col(Ty::I64, false, 1), col(Ty::U64, false, 1), col(Ty::Str, false, 2)],
+    &[col(Ty::Unit, true, 5), col(Ty::U32, false, 6)],
+];
+
+/// Encode through the derived `Into<TupleKey>` and decode through the derived `TryFrom`.
+fn derive_roundtrip(which: usize, t: &[Val]) -> Option<(Vec<u8>, Result<Vec<Val>, String>)> {
+    fn rt<T: tuple_key::TypedTupleKey + Clone>(x: T, back: impl Fn(T) -> Vec<Val>) -> (Vec<u8>, Result<Vec<Val>, String>)
+    where
+        <T as TryFrom<tuple_key::TupleKey>>::Error: std::fmt::Debug,
+    {
+        let key: tuple_key::TupleKey = x.into();
+        let bytes = key.as_bytes().to_vec();
+        (bytes, T::try_from(key).map(back).map_err(|e| format!("{e:?}")))
+    }
+    Some(match (which, t) {
+        (0, [Val::Str(name), Val::I64(ts), Val::U32(n)]) => rt(D1 { name: name.clone(), ts: *ts, n: *n }, |d| vec![Val::Str(d.name), Val::I64(d.ts), Val::U32(d.n)]),
+        (1, [Val::Str(s), Val::Unit, Val::U64(x), Val::I32(y)]) => rt(D2 { s: s.clone(), u: (), x: *x, y: *y }, |d| vec![Val::Str(d.s), Val::Unit, Val::U64(d.x), Val::I32(d.y)]),
+        (2, [Val::I32(a), Val::U32(b), Val::I64(c), Val::U64(d), Val::Str(e)]) => {
+            rt(D3 { a: *a, b: *b, c: *c, d: *d, e: e.clone() }, |d| vec![Val::I32(d.a), Val::U32(d.b), Val::I64(d.c), Val::U64(d.d), Val::Str(d.e)])
+        }
+        (3, [Val::Unit, Val::U32(x)]) => rt(D4 { u: (), x: *x }, |d| vec![Val::Unit, Val::U32(d.x)]),
+        _ => return None,
+    })
+}
+
+#[derive(Clone, Debug, Serialize, Deserialize)]
+struct DeriveCase {
+    which: usize,
+    a: Vec<Val>,
+    b: Vec<Val>,
+}
+
+struct Derive;
+
+impl Property for Derive {
+    type Case = DeriveCase;
+    fn name(&self) -> String {
+        "tk1-derive".into()
+    }
+    fn cases(&self, tier: Tier) -> u64 {
+        tier.pick(8_000, 200_000)
+    }
+    fn strategy(&self, _: &Ctx) -> BoxedStrategy<DeriveCase> {
+        (0usize..D_SCHEMAS.len())
+            .prop_flat_map(|which| {
+                let schema = D_SCHEMAS[which].to_vec();
+                (Just(which), schema_and_pairs(Just(schema).boxed()), any::<u16>())
+            })
+            .prop_map(|(which, (schema, pairs), p)| {
+                let p = sel(p, 16 * schema.len() + 1) / 16;
+                let (a, b) = split_pairs(&pairs, p);
+                DeriveCase { which, a, b }
+            })
+            .boxed()
+    }
+    fn run(&self, ctx: &Ctx, c: &DeriveCase) -> Outcome {
+        let mut o = Outcome::pass();
+        let fmt = Fmt::Tk1;
+        let Some(schema) = D_SCHEMAS.get(c.which) else {
+            o.inconclusive = true;
+            return o;
+        };
+        let (Some((ea, ra)), Some((eb, rb))) = (derive_roundtrip(c.which, &c.a), derive_roundtrip(c.which, &c.b)) else {
+            o.inconclusive = true;
+            o.label("malformed-case");
+            return o;
+        };
+        o.label(format!("struct:D{}", c.which + 1));
+        o.nontrivial = c.a != c.b;
+        // A `#[reverse]` unit field (struct D4) is written with a forward tag by `TupleKey::extend`;
+        // the derived TryFrom must parse it back (finding R-N2, repaired upstream).
+        let reverse_unit = schema.iter().any(|c| c.ty == Ty::Unit && c.desc);
+        if reverse_unit {
+            o.label("struct-with-reverse-unit-field");
+        }
+        for (t, e, r) in [(&c.a, &ea, &ra), (&c.b, &eb, &rb)] {
+            match r {
+                Ok(back) if back == t => {}
+                other => {
+                    let sig = if reverse_unit { "roundtrip:tuple_key_derive:reverse-unit" } else { "roundtrip:tuple_key_derive" };
+                    o.fail(sig, format!("struct D{} {} -> {} -> {:?}", c.which + 1, show(t), hex(e), other));
+                    return o;
+                }
+            }
+        }
+        // the derived encoding sorts like the tuple
+        let (_, d) = cmp_tuple(schema, &c.a, &c.b);
+        if let Some(d) = d {
+            label_diff(&mut o, &schema[d], &c.a[d], &c.b[d]);
+        }
+        judge_order(fmt, ctx, "order", "derived Into<TupleKey>", schema, &c.a, &c.b, &ea, &eb, &mut o);
+        o
+    }
+}
+
+
+////////////////////////////////// exhaustive R-N characterisation /////////////////////////////////
+
+/// Bounded-exhaustive validation of the R-N trigger predicate: every ordered pair
+/// `(p^k ++ x, p^k ++ y)` with `x`, `y` over all strings of length <= 3 from a five-letter
+/// alphabet and a common prefix of `k` in 0..=8 copies of one letter (so every alignment of the
+/// 7-bit chunking occurs), encoded as one descending `tuple_key` string.  Oracle: a pair outside
+/// the trigger must sort correctly (violation otherwise); inside the trigger it is excluded like
+/// everywhere else, and whether it really sorts wrong is recorded as a label.
+struct RnExhaustive;
+
+#[derive(Clone, Debug, Serialize, Deserialize)]
+struct RnCase {
+    a: String,
+    b: String,
+}
+
+const RN_ALPHABET: [char; 5] = ['\0', '\u{1}', '\u{2}', '@', '\u{80}'];
+
+fn rn_strings() -> Vec<String> {
+    let mut out = vec![String::new()];
+    let mut frontier = vec![String::new()];
+    for _ in 0..3 {
+        let mut next = vec![];
+        for s in frontier.iter() {
+            for c in RN_ALPHABET {
+                let mut t = s.clone();
+                t.push(c);
+                next.push(t);
+            }
+        }
+        out.extend(next.iter().cloned());
+        frontier = next;
+    }
+    out
+}
+
+impl RnExhaustive {
+    fn judge(&self, ctx: &Ctx, c: &RnCase) -> Outcome {
+        let mut o = Outcome::pass();
+        let schema = [Col { ty: Ty::Str, desc: true, field: 1 }];
+        let (a, b) = ([Val::Str(c.a.clone())], [Val::Str(c.b.clone())]);
+        let (ea, eb) = (encode(Fmt::Tk1, &schema, &a), encode(Fmt::Tk1, &schema, &b));
+        o.nontrivial = c.a != c.b;
+        judge_order(Fmt::Tk1, ctx, "order", "exhaustive descending-string pair", &schema, &a, &b, &ea, &eb, &mut o);
+        o
+    }
+}
+
+impl Part for RnExhaustive {
+    fn name(&self) -> String {
+        "tk1-desc-string-exhaustive".into()
+    }
+    fn worker(&self, ctx: &Ctx) -> WorkerReport {
+        let mut rep = WorkerReport::default();
+        let strings = rn_strings();
+        let n = strings.len() as u64;
+        let prefixes: u64 = 9;
+        let total = prefixes * n * n;
+        let name = self.name();
+        for idx in vcore::my_share(ctx, total) {
+            let k = (idx / (n * n)) as usize;
+            let (i, j) = (((idx / n) % n) as usize, (idx % n) as usize);
+            let pre = "@".repeat(k);
+            let c = RnCase { a: format!("{pre}{}", strings[i]), b: format!("{pre}{}", strings[j]) };
+            let o = match vcore::guard(|| self.judge(ctx, &c)) {
+                Ok(o) => o,
+                Err(f) => Outcome { nontrivial: true, failure: Some(f), ..Default::default() },
+            };
+            rep.record(&name, vcore::case_hash(&c), || serde_json::to_value(&c).unwrap(), &o);
+            if let Some(f) = o.failure {
+                rep.violations.push(ViolationRec { part: name.clone(), case: serde_json::to_value(&c).unwrap(), signature: f.signature, message: f.message, shrunk: false });
+                break;
+            }
+        }
+        rep
+    }
+    fn replay(&self, ctx: &Ctx, case: &serde_json::Value) -> Outcome {
+        match serde_json::from_value::<RnCase>(case.clone()) {
+            Ok(c) => match vcore::guard(|| self.judge(ctx, &c)) {
+                Ok(o) => o,
+                Err(f) => Outcome { nontrivial: true, failure: Some(f), ..Default::default() },
+            },
+            Err(e) => {
+                let mut o = Outcome::pass();
+                o.inconclusive = true;
+                o.label(format!("replay-parse-error: {e}"));
+                o
+            }
+        }
+    }
+}
+
+/////////////////////////////////////////////// main ///////////////////////////////////////////////
+
 fn main() {
-    vcore::main_with(vec![], &[]);
+    let check = Check::new(
+        "C16",
+        "exploration",
+        "proptest-generated schemas (1-6 columns over unit/u32/u64/i32/i64/string[/bytes], each ascending or descending for tuple_key, with field numbers at the 1/2/3/4/5-byte tag boundaries) and pairs of tuples correlated by construction: equal prefix of generated length, then one correlated element pair (integers: equal, +-1, +2, negated, one bit flipped, independent, drawn from 0, +-1, +-2, +-2^(7k)+-1, +-2^(8k)+-1, MIN, MAX and random widths; strings/bytes: equal, proper prefix, differing in the last unit, differing after a common prefix, empty vs non-empty, independent, over alphabets rich in NUL, 0x01, 0xff / U+10FFFF), rest correlated again. order: cmp(enc a, enc b) == cmp_tuple(a, b) with per-element direction reversal; extension: enc(t) proper prefix of and before enc(t++u), and enc(t++u[..m]) < enc(t') and < enc(t'++u') for every m when t < t'; roundtrip: parse with the same type sequence (and peek_next, iterator, Schema::args_for_key, derived TryFrom) returns the tuple; decode: arbitrary bytes and 1-3 byte-level mutations of valid encodings never panic (tuple_key2: accepted bytes re-encode to themselves). Non-trivial: (order/extension/derive) the tuples differ and either share >= 1 leading element or their first differing elements are strings/bytes with a common prefix or an empty side, or integers at distance <= 2, of opposite sign or of different 7-bit/8-bit length (extension additionally needs a non-empty u); (roundtrip) >= 2 elements, one not unit; (decode) non-empty input that is a damaged valid encoding or of which at least one element was accepted. One further part enumerates exhaustively 219 024 pairs of descending tuple_key strings ('@'^k ++ x, '@'^k ++ y; x, y all strings of length <= 3 over {NUL, U+1, U+2, '@', U+80}; k = 0..8) to validate the R-N trigger predicate at every 7-bit alignment. Distinct by structural hash of the case.",
+    )
+    .assume("tuples are compared only under one schema: same element types, directions and (tuple_key) field numbers; tuple_key orders different field numbers / types by their tag bytes, which is not part of the property")
+    .assume("tuple_key has no bytes element and its integers are fixed-width (5 / 10 bytes), so 'bytes' and variable-length integers are exercised in tuple_key2 only; tuple_key2 has no descending direction, so directions are exercised in tuple_key only")
+    .assume("strings compare by their UTF-8 bytes (Rust's str order); tuple_key strings are Rust Strings and therefore cannot contain 0xff bytes — 0xff is exercised through U+10FFFF/other multi-byte characters in tuple_key and through bytes elements in tuple_key2")
+    .assume("tuple_key2's u32/i32 builders are the u64/i64 encodings of the widened value (documented); parsing uses the same method as building")
+    .assume("the known finding R-N (tuple_key descending-string pairs whose forward encodings first differ only in the continuation bit) is excluded by construction outside strict mode and counted; nothing else is excluded")
+    .assume("decoders may return a value for damaged input; only panics (and, for tuple_key2 whose docs promise canonical encodings, accepted bytes that do not re-encode to themselves) are failures")
+    .pbt(Order { fmt: Fmt::Tk1, desc_string_focus: false })
+    .pbt(Order { fmt: Fmt::Tk1, desc_string_focus: true })
+    .part(RnExhaustive)
+    .pbt(Extension { fmt: Fmt::Tk1 })
+    .pbt(Roundtrip { fmt: Fmt::Tk1 })
+    .pbt(Decode { fmt: Fmt::Tk1 })
+    .pbt(Derive)
+    .pbt(Order { fmt: Fmt::Tk2, desc_string_focus: false })
+    .pbt(Extension { fmt: Fmt::Tk2 })
+    .pbt(Roundtrip { fmt: Fmt::Tk2 })
+    .pbt(Decode { fmt: Fmt::Tk2 });
+    vcore::main_with(vec![check], &[]);
 }
